@@ -216,8 +216,17 @@ inline int harness_main(Harness &h, int argc, char **argv) {
       // process is itself a way to break determinism properties) is recorded but does not discard the finding
       if (o2.violation && o2.cls == o.cls && o2.hash != o.hash) { fprintf(out, "H %llu %s first=%016llx second=%016llx\n", (unsigned long long)seed, jesc(o.cls).c_str(), (unsigned long long)o.hash, (unsigned long long)o2.hash); fflush(out); }
       if (!o2.violation || o2.cls != o.cls) {
-        S.nondet++;
-        fprintf(out, "N %llu %s first=%016llx second=%016llx\n", (unsigned long long)seed, jesc(o.cls).c_str(), (unsigned long long)o.hash, (unsigned long long)o2.hash);
+        // Not reproduced by executing the same plan again in THIS process.  That is what a harness bug looks like, but also what
+        // a library defect looks like whose trigger is consumed by the first execution (lazily initialised shared state, a cache):
+        // the plan is handed to the driver un-minimised; its replay in a fresh process decides (reproduces -> violation,
+        // does not -> simulator fault, exit 2).
+        fprintf(out, "U %llu %s first=%016llx second=%016llx\n", (unsigned long long)seed, jesc(o.cls).c_str(), (unsigned long long)o.hash, (unsigned long long)o2.hash);
+        if (minimised_per_class[o.cls + "/unstable"]++ < 2) {
+          Plan m = p; m.set("expect.class", o.cls); m.set("expect.message", o.msg); m.set("expect.unstable_in_process", "1");
+          char path[512]; snprintf(path, sizeof path, "%s/%s-%llu.plan", replay_dir.c_str(), h.prop.c_str(), (unsigned long long)seed);
+          FILE *pf = fopen(path, "w"); if (pf) { fputs(m.text().c_str(), pf); fclose(pf); }
+          fprintf(out, "V %llu %s %s %s\n", (unsigned long long)seed, path, jesc(o.cls).c_str(), jesc(o.msg).c_str());
+        }
         fflush(out);
         continue;
       }
